@@ -31,8 +31,8 @@ def check(ctx):
 MANIFEST = {
     "technique": "static analysis: symbolic extraction of arithmetic expressions and guard structure from MIR (exact rational-function comparison of the conversion formula, field-wise operator tables, dominance / path conditions of the failure edges), plus evaluation of the unit table",
     "level": "Decides structural necessary conditions of dimensional soundness for all units at once: a swapped scale / offset, a copy-pasted dimension "
-    "component, operands in the wrong order in a quotient, a weakened or bypassed dimension guard, or a unit returned that the dimension search did "
-    "not produce all change the extracted skeleton and are reported at the construct. It does not decide the numerical clauses of the property "
+    "component, operands in the wrong order in a quotient, a weakened or bypassed dimension guard, a unit returned that the dimension search did "
+    "not produce, an asymmetric scale comparison, a result for two unit-carrying numbers that bypasses the unit operation all change the extracted skeleton and are reported at the construct. It does not decide the numerical clauses of the property "
     "(round trip within rounding over ~200k unit pairs and magnitudes); those are outside what a static argument here can bound.",
     "note": "Partial claim (clauses); section 4 of DESIGN.md originally listed C16 as not applicable and explains what remains so. Trusted: rustc MIR; f64 arithmetic treated as real arithmetic for the formula comparison.",
 }
